@@ -5,7 +5,9 @@ rule of ZstdFormat, the per-frame format state of Huffman table / three sequence
 enumerates frames built from a default compressed block by one or two deviations per block -- literals raw / RLE /
 Huffman in 1 or 4 streams / treeless, every size format, 0..3 sequences, all mode triples over predefined / RLE / FSE and
 repeat modes in a follow-up block, repeat-offset codes with and without literals, overlapping copies, raw / RLE / empty
-blocks, header variants -- and writes each with the content the specification computes (or "invalid").  The harness
+blocks, header variants; the full product literals kind x sequence menu x mode triple; values in the upper code ranges
+(up to 8 extra bits) under every mode triple; chains of three dependent blocks (20 108 frames) -- and writes each with the
+content the specification computes (or "invalid").  The harness
 serialises every frame with its own bit packers (accepted only if libzstd agrees with the specification), decodes it
 through decode_all, the streaming reader, decode_blocks+collect and decode_from_to, and compares bytes and metadata.
 Real compressors: random legal schedules over decodecorpus files and libzstd / ruzstd output (levels -5..22, window logs,
@@ -25,7 +27,7 @@ def check(ctx):
     with open(mod, "w") as f:
         f.write("---- MODULE MC_ZstdFrames ----\nEXTENDS ZstdFrames\nDictContentDef == <<>>\nDictRepDef == <<1, 4, 8>>\n====\n")
     cfg = ctx.path("MC_ZstdFrames.cfg")
-    write_cfg(cfg, constants={"Tier": '"thorough"', "DictContent": "<- DictContentDef", "DictRep": "<- DictRepDef"})   # the enumeration is cheap: both tiers use the full set
+    write_cfg(cfg, constants={"Tier": '"deep"', "DictContent": "<- DictContentDef", "DictRep": "<- DictRepDef"})   # the enumeration is cheap: both tiers use the deepest set
     res = tlc(ctx, mod, cfg, workers=1, name="MC_ZstdFrames", heap="-Xmx8g", timeout=3000)
     tlc_must_pass(ctx, res, "ZstdFrames")
     cases = ctx.path("zf_cases.ndjson")
